@@ -78,7 +78,7 @@ theorem correlogramsFl_eq_spec (times : List ℚ) (sc : List Int) (ids : List Na
             else specCcg (samplesOfFl rate times) sc ids (binsizeOfFl rate bin) (halfOfFl window bin)) := by
   have hT := samplesOfFl_sorted rate times hr hsorted
   have hl : sc.length = (samplesOfFl rate times).length := by rw [samplesOfFl_length, hlen]
-  unfold correlogramsFl
+  unfold correlogramsFl correlogramsOfInts
   rw [if_neg (by simp [hr]), if_neg (by simp [zip_tail_of_pairwise times hsorted]),
     if_neg (by simp [hlen]), if_neg (by omega)]
   simp only [idsOr]
@@ -87,10 +87,14 @@ theorem correlogramsFl_eq_spec (times : List ℚ) (sc : List Int) (ids : List Na
 
 theorem correlogramsFl_rejects (times : List ℚ) (sc : List Int) (ids : Option (List Nat)) (rate bin window : ℚ)
     (sym : Bool) (hb : binsizeOfFl rate bin < 1) : correlogramsFl times sc ids rate bin window sym = none := by
-  unfold correlogramsFl
+  unfold correlogramsFl correlogramsOfInts
   rw [if_pos hb]
   repeat' split
   all_goals rfl
+
+theorem samplesOfFl_eq_prods (rate : ℚ) (times : List ℚ) :
+    samplesOfFl rate times = (prodsFl rate times).map truncInt := by
+  simp [samplesOfFl, prodsFl, List.map_map, Function.comp_def]
 
 /-! ### where rounding changes nothing -/
 
@@ -124,7 +128,7 @@ theorem correlogramsFl_eq_Q (times : List ℚ) (sc : List Int) (ids : Option (Li
     (T : List Int) (B : Int) (g : GridOK times rate bin window T B) (x : FlExact bin window T B) (sym : Bool) :
     correlogramsFl times sc ids rate bin window sym = correlogramsQ times sc ids rate bin window sym := by
   obtain ⟨h1, h2, h3⟩ := fl_eq_exact times rate bin window T B g x
-  unfold correlogramsFl correlogramsQ
+  unfold correlogramsFl correlogramsOfInts correlogramsQ
   rw [h1, h2, h3]
   rfl
 
